@@ -78,6 +78,8 @@ def _points():
                     pts.append(datetime.datetime(y, m, d, *t))
     pts += [datetime.datetime(1970, 1, 1, 0, 0, 0), datetime.datetime(1969, 12, 31, 23, 59, 59), datetime.datetime(1901, 12, 13, 20, 45, 52),
             datetime.datetime(2038, 1, 19, 3, 14, 7), datetime.datetime(2038, 1, 19, 3, 14, 8), datetime.datetime(2106, 2, 7, 6, 28, 15),
+            datetime.datetime(1969, 12, 31, 23, 0, 0), datetime.datetime(1969, 12, 31, 22, 30, 0), datetime.datetime(1969, 12, 31, 0, 0, 0),
+            datetime.datetime(1950, 6, 15, 7, 0, 0), datetime.datetime(1950, 6, 15, 7, 0, 1), datetime.datetime(1931, 2, 28, 12, 0, 0),
             datetime.datetime(1917, 1, 1, 0, 0, 0), datetime.datetime(2400, 2, 29, 13, 0, 0), datetime.datetime(3000, 12, 31, 23, 59, 59)]
     return pts
 
